@@ -352,6 +352,13 @@ func GenerateEnumType(p Printer, enum *protogen.Enum) {
 func GenerateInterface(p Printer, msg *protogen.Message) {
 	name := string(msg.Desc.Name())
 
+	// Well-known types whose proto3 JSON form is not an object of their proto fields
+	if alias := wellKnownTypeTS(msg); alias != "" {
+		p("export type %s = %s;", name, alias)
+		p("")
+		return
+	}
+
 	// Collect discriminated oneof info
 	var discriminatedOneofs []*annotations.OneofDiscriminatorInfo
 	for _, oneof := range msg.Oneofs {
@@ -372,6 +379,32 @@ func GenerateInterface(p Printer, msg *protogen.Message) {
 		GenerateFlattenedOneofInterface(p, msg, name, discriminatedOneofs)
 	} else {
 		GenerateStandardInterface(p, msg, name, discriminatedOneofs)
+	}
+}
+
+// wellKnownTypeTS returns the TypeScript type of the proto3 JSON form of the well-known types that
+// are not written as an object of their proto fields: Duration ("3.5s"), FieldMask ("a.b,c"), the
+// wrapper types (the wrapped value itself), Struct / Value / ListValue (arbitrary JSON). It returns
+// "" for every other message. (Timestamp is handled per field, where its format annotation is.)
+func wellKnownTypeTS(msg *protogen.Message) string {
+	switch msg.Desc.FullName() {
+	case "google.protobuf.Duration", "google.protobuf.FieldMask",
+		"google.protobuf.StringValue", "google.protobuf.BytesValue",
+		"google.protobuf.Int64Value", "google.protobuf.UInt64Value":
+		return TSString
+	case "google.protobuf.BoolValue":
+		return TSBoolean
+	case "google.protobuf.Int32Value", "google.protobuf.UInt32Value",
+		"google.protobuf.FloatValue", "google.protobuf.DoubleValue":
+		return TSNumber
+	case "google.protobuf.Struct":
+		return "Record<string, unknown>"
+	case "google.protobuf.Value":
+		return "unknown"
+	case "google.protobuf.ListValue":
+		return "unknown[]"
+	default:
+		return ""
 	}
 }
 
